@@ -436,6 +436,7 @@ def c05_length(R):
                 and isinstance(b.args[0], ast.GeneratorExp)
                 and ast.unparse(b.args[0].elt).endswith(".length")
                 and not b.args[0].generators[0].ifs
+                and "*" + ast.unparse(b.args[0].generators[0].iter) in ps
             )
             R.check(ok, m, d.node, "Concat: sum of the parts' widths", f"width of Concat is `{norm(b)}`")
         elif d.name in ("StrLen", "StrIndexOf", "StrToInt"):
